@@ -30,6 +30,11 @@ struct AccCase {
     /// how the effective address is split between base register and offset field
     off: i16,
     tag: String,
+    /// precede the access by a VALID access through the same base register, offset and width
+    /// (then re-point the register with a plain mov): a bounds check must not be reused
+    warm: bool,
+    /// load the program through new(None) + register ranges + set_program instead of new(prog)
+    via_set_program: bool,
 }
 
 #[derive(Clone, Copy, Debug)]
@@ -89,8 +94,28 @@ fn build_prog(c: &AccCase, pkt_base: u64) -> Vec<u8> {
             match c.target {
                 Target::Abs(t) => {
                     let b = t.wrapping_sub(c.off as i64 as u64);
-                    v.push(Insn::new(LDDW, 2, 0, 0, b as u32 as i32));
-                    v.push(Insn::new(0, 0, 0, 0, (b >> 32) as u32 as i32));
+                    if c.warm && c.acc != Acc::Xadd {
+                        // valid access of the same shape on the stack first: r2 = r10 - 64 - off
+                        v.push(Insn::new(STDW, 10, 0, -64, 0x5151));
+                        v.push(Insn::new(LDDW, 5, 0, 0, b as u32 as i32));
+                        v.push(Insn::new(0, 0, 0, 0, (b >> 32) as u32 as i32));
+                        v.push(Insn::new(MOV64_REG, 2, 10, 0, 0));
+                        v.push(Insn::new(ADD64_IMM, 2, 0, 0, -64 - c.off as i32));
+                        let opc = opcode_for(c.acc, c.width);
+                        match c.acc {
+                            Acc::Ldx => v.push(Insn::new(opc, 0, 2, c.off, 0)),
+                            Acc::St => v.push(Insn::new(opc, 2, 0, c.off, ST_IMM)),
+                            _ => {
+                                v.push(Insn::new(LDDW, 4, 0, 0, STORE_VAL as u32 as i32));
+                                v.push(Insn::new(0, 0, 0, 0, (STORE_VAL >> 32) as u32 as i32));
+                                v.push(Insn::new(opc, 2, 4, c.off, 0));
+                            }
+                        }
+                        v.push(Insn::new(MOV64_REG, 2, 5, 0, 0));
+                    } else {
+                        v.push(Insn::new(LDDW, 2, 0, 0, b as u32 as i32));
+                        v.push(Insn::new(0, 0, 0, 0, (b >> 32) as u32 as i32));
+                    }
                 }
                 Target::StackRel(d) => {
                     v.push(Insn::new(MOV64_REG, 2, 10, 0, 0));
@@ -300,13 +325,13 @@ pub fn run(a: &Args, rep: &mut Report, cl: bool) {
                     if tt.wrapping_sub(pkt_base) > u32::MAX as u64 {
                         continue;
                     }
-                    cases.push(AccCase { acc, width, target: t, off: 0, tag: tname });
+                    cases.push(AccCase { acc, width, target: t, off: 0, tag: tname, warm: false, via_set_program: rng.chance(1, 4) });
                 }
                 Acc::LdInd => {
                     let Target::Abs(_) = t else { continue };
-                    cases.push(AccCase { acc, width, target: t, off: off.max(0), tag: tname });
+                    cases.push(AccCase { acc, width, target: t, off: off.max(0), tag: tname, warm: false, via_set_program: rng.chance(1, 4) });
                 }
-                _ => cases.push(AccCase { acc, width, target: t, off, tag: tname }),
+                _ => cases.push(AccCase { acc, width, target: t, off, tag: tname, warm: rng.chance(1, 4), via_set_program: rng.chance(1, 4) }),
             }
         }
         // snapshot of every arena
@@ -362,10 +387,20 @@ pub fn run(a: &Args, rep: &mut Report, cl: bool) {
             reset(&l);
             let prog = &progs[i];
             let r = sys::catch(|| {
-                let mut vm = Vm::new(l.kind, Some(prog), (0, 8)).map_err(|e| format!("REJECTED {e}"))?;
-                for r in &l.ranges {
-                    vm.register_allowed(r.clone());
-                }
+                let mut vm = if cases[i].via_set_program {
+                    let mut vm = Vm::new(l.kind, None, (0, 8)).map_err(|e| format!("REJECTED {e}"))?;
+                    for r in &l.ranges {
+                        vm.register_allowed(r.clone());
+                    }
+                    vm.set_program(prog, (0, 8)).map_err(|e| format!("REJECTED {e}"))?;
+                    vm
+                } else {
+                    let mut vm = Vm::new(l.kind, Some(prog), (0, 8)).map_err(|e| format!("REJECTED {e}"))?;
+                    for r in &l.ranges {
+                        vm.register_allowed(r.clone());
+                    }
+                    vm
+                };
                 hooks::reset(10_000, false);
                 let pk = l.pkt.as_ref().map(|p| (p.addr() as *mut u8, p.len())).unwrap_or((std::ptr::null_mut(), 0));
                 let mb = l.mbuff.as_ref().map(|p| (p.addr() as *mut u8, p.len())).unwrap_or((std::ptr::null_mut(), 0));
@@ -419,7 +454,7 @@ pub fn run(a: &Args, rep: &mut Report, cl: bool) {
             done += 1;
             let cell = format!("{:?}{}:{}", c.acc, c.width, c.tag);
             rep.set("cells", cell.clone());
-            let w = json!({"kind": "access-case", "layout": l.desc, "access": format!("{:?}", c.acc), "width": c.width, "target": format!("{:?}", c.target), "off": c.off, "region": c.tag, "prog": hex(prog),
+            let w = json!({"kind": "access-case", "layout": l.desc, "access": format!("{:?}", c.acc), "width": c.width, "target": format!("{:?}", c.target), "off": c.off, "warm": c.warm, "via_set_program": c.via_set_program, "region": c.tag, "prog": hex(prog),
                 "regions": regs.iter().map(|(n, s, l)| format!("{n}@{s:#x}+{l}")).collect::<Vec<_>>()});
             let rec = match e {
                 CaseEnd::Done(b) => b,
